@@ -17,6 +17,10 @@ def grammar_text(rng, depth=3):
 
     def num():
         r = rng.random()
+        if r < 0.04:
+            # integer literals of any length denote exactly their digits (no double in between)
+            return rng.choice(["9007199254740993", "10000000000000000001", "12345678901234567891", "18446744073709551617",
+                               "1" + "0" * 30 + "7", str(rng.randint(2**53, 2**90) | 1)])
         if r < 0.6:
             return str(rng.randint(0, 20))
         if r < 0.85:
@@ -289,6 +293,20 @@ def c04(ctx):
                                             ("U", 0, "fact", ("C", 0, Fraction(3))),
                                             ("U", 0, "sgn", ("V", 0, "y"))]):
         add(t)
+    # every two-level operator nest with function / factorial / negated operands in every slot
+    rich = [("C", 0, Fraction(3)), ("C", 0, Fraction(-2)), ("V", 0, "x"), ("U", 0, "sgn", ("V", 0, "y")),
+            ("U", 0, "fact", ("C", 0, Fraction(3))), ("U", 0, "neg", ("V", 0, "x")), ("C", 0, Fraction(5, 2))]
+    bops = ["add", "sub", "mul", "div", "pow"]
+    for o1 in bops:
+        for o2 in bops:
+            for a in rich:
+                for b in rich:
+                    inner = ("B", 0, o2, a, b)
+                    for c in rich:
+                        add(("B", 0, o1, inner, c))
+                        add(("B", 0, o1, c, inner))
+                    add(("U", 0, "neg", inner))
+                    add(("U", 0, "sgn", inner))
     sides = list(gen.enum_upto(3))
     for a in sides:
         for b in sides:
@@ -531,7 +549,7 @@ def c11(ctx):
 
 # ----------------------------------------------------------------------------- C10 / C12 histories
 
-HIST_TEXTS = ["2+", "2x+1", "(", "4x^2", "1.2.3", "#", "", "x=1", "sgn(x)", "2 + 3", "12", "1 2", "s gn(x)", "2x + 1",
+HIST_TEXTS = ["2+", "2+#", "4x$", "2x+1", "(", "4x^2", "1.2.3", "#", "", "x=1", "sgn(x)", "2 + 3", "12", "1 2", "s gn(x)", "2x + 1",
               "2 x+1", "4 + * 3", "2x)", "(x", " 2+", "x = 1", "1 . 5", "1.5", "2+ ", "SGN(x)"]
 
 
